@@ -403,10 +403,28 @@ Fixpoint check_steps (prop : N) (self : N) (starts : list (N * N)) (i : N) (ms :
       else known ++ check_steps prop self starts (i + 1) ms' r
   end.
 
+(* the model refused an instantiation the implementation accepted: the step contracts are still
+   evaluated on the implementation's steps (they need the configuration only), so that a concrete
+   failing input is reported when there is one; otherwise the divergence itself is *)
+Fixpoint contracts_only (prop : N) (starts : list (N * N)) (i : N) (cfg : mstate) (l : list tstep) : list (N * N) :=
+  match l with
+  | [] => []
+  | TCall blk sender o g before calls ok after :: r =>
+      let c := contract prop cfg starts before after blk g sender o calls ok in
+      if negb (c =? 0) then [(i, 100 + c)] else contracts_only prop starts (i + 1) cfg r
+  end.
+
 Definition check_trace (prop : N) (t : trace) : list (N * N) :=
   match instantiate (t_init t) (gview_of_env (t_init_genv t)) with
   | Ok ms => if t_init_ok t then check_steps prop (t_self t) (t_starts t) 1 ms (t_steps t) else [(0, 49)]
-  | _ => if t_init_ok t then [(0, 49)] else []
+  | _ => if t_init_ok t then
+           let m := t_init t in
+           let cfg := mkMs (i_flex m) [] 0 (i_threshold m) (i_period m) (i_executor m) (i_deposit m) [] 0 in
+           match contracts_only prop (t_starts t) 1 cfg (t_steps t) with
+           | [] => [(0, 49)]
+           | x => x
+           end
+         else []
   end.
 
 (* per trace: the first known-class report (code >= 300) and the first other report *)
